@@ -5,6 +5,7 @@ import (
 	"math"
 	"math/big"
 	"strings"
+	"time"
 	"unicode/utf8"
 	"unsafe"
 
@@ -224,8 +225,8 @@ func fhirConvOne[To constraints.Integer](r *core.Rec, kind string, v int64) {
 
 func init() {
 	core.Register(&core.Check{
-		ID:   "C15",
-		Rule: "six finite sub-spaces enumerated completely: string literals as all sequences of length 0..3/4 over 22 source symbols (every escape, quotes, backslash, non-ASCII, a backslash before a non-escape ASCII and non-ASCII character) against an own escape decoder; temporal literal texts (precision x fraction digits x offset form x boundary fields, valid and calendar-invalid); number/quantity literals; System<->FHIR primitive conversions for every precision enum x time-zone form; FHIR primitive parse/format helpers against google/fhir jsonformat; integer narrowing for all 11x11 Go integer type pairs (every 8/16-bit value, boundary 32/64-bit values); distinct by construction",
+		ID:          "C15",
+		Rule:        "six finite sub-spaces enumerated completely: string literals as all sequences of length 0..3/4 over 22 source symbols (every escape, quotes, backslash, non-ASCII, a backslash before a non-escape ASCII and non-ASCII character) against an own escape decoder; temporal literal texts (precision x fraction digits x offset form x boundary fields, valid and calendar-invalid); number/quantity literals; System<->FHIR primitive conversions for every precision enum x time-zone form; FHIR primitive parse/format helpers against google/fhir jsonformat, also with time.Local set to +09:00 and -03:30; integer narrowing for all 11x11 Go integer type pairs (every 8/16-bit value, boundary 32/64-bit values); distinct by construction",
 		Assumptions: []string{"a fraction finer than milliseconds may be cut explicitly (shown by toString) but not changed", "google/fhir jsonformat is the reference FHIR JSON rendering"},
 		Subs: func(tier string) []core.Sub {
 			maxLen := 4
@@ -377,9 +378,63 @@ func init() {
 						r.Fail("temporal-literal|"+t.class+"|string-form-does-not-reparse-equal:"+rt.Class(), core.W{"src": lit + ".toString().to" + t.kind + "() = " + lit, "got": rt.String(), "string_form": str})
 					}
 				}},
-				{Name: "number-quantity-literals", N: 1, Note: "decimal literals with leading/trailing zeros up to 30 digits, integer literals at the int32 edges, every quantity unit keyword and quoted UCUM units", Run: func(_ int, r *core.Rec) {
+				{Name: "number-quantity-literals", N: 1, Note: "decimal literals: every split of 2..31 digits into integer and fraction part x 4 digit patterns (about 1400 literals, each also as quantity and against its last-digit neighbour), leading/trailing zeros, integer literals at the int32 edges, every quantity unit keyword and quoted UCUM units", Run: func(_ int, r *core.Rec) {
 					decs := []string{"0.0", "0.10", "00.5", "1.000", "007.250", "123456789012345678901234567890.5", "0.000000000000000000000000000001", "1.50", "100.00", "3.14159265358979323846264338327"}
+					// every split of 2..31 significant digits into integer and fraction part, in four digit patterns
+					// (nines, the decimal digits in order, 2^53+1 padded, alternating 1/0): the literal denotes exactly that number
+					pat := func(kind, n int) string {
+						var b strings.Builder
+						for i := 0; i < n; i++ {
+							switch kind {
+							case 0:
+								b.WriteByte('9')
+							case 1:
+								b.WriteByte("1234567890"[i%10])
+							case 2:
+								b.WriteByte("9007199254740993"[i%16])
+							default:
+								b.WriteByte("10"[i%2])
+							}
+						}
+						return b.String()
+					}
+					seenDec := map[string]bool{}
 					for _, d := range decs {
+						seenDec[d] = true
+					}
+					for ip := 1; ip <= 20; ip++ {
+						for fp := 1; fp <= 20 && ip+fp <= 31; fp++ {
+							for kind := 0; kind < 4; kind++ {
+								all := pat(kind, ip+fp)
+								d := all[:ip] + "." + all[ip:]
+								if !seenDec[d] {
+									seenDec[d] = true
+									decs = append(decs, d)
+								}
+							}
+						}
+					}
+					for _, d := range decs {
+						// a neighbour differing in the last digit only is a different number
+						last := d[len(d)-1]
+						nb := d[:len(d)-1] + string('0'+(last-'0'+1)%10)
+						ne := lib.Run(d+" = "+nb, nil, nil)
+						r.Eval()
+						if !(ne.OK() && len(ne.Coll) == 1 && ne.Coll[0] == system.Boolean(false)) {
+							r.Fail("decimal-literal|neighbour-in-the-last-digit-compares-equal|"+decClass(d), core.W{"src": d + " = " + nb, "got": ne.String()})
+						}
+						qs := lib.Run("("+d+" 'mg').toString()", nil, nil)
+						r.Eval()
+						if qs.OK() && len(qs.Coll) == 1 {
+							if str, isS := qs.Coll[0].(system.String); isS {
+								num := strings.SplitN(string(str), " ", 2)[0]
+								g, okn := new(big.Rat).SetString(num)
+								w, _ := new(big.Rat).SetString(d)
+								if !okn || g.Cmp(w) != 0 {
+									r.Fail("quantity-literal|value!=denoted|"+decClass(d), core.W{"literal": d + " 'mg'", "toString": string(str)})
+								}
+							}
+						}
 						res := lib.Run(d, nil, nil)
 						r.Eval()
 						r.Nontrivial(d, res.Class())
@@ -768,6 +823,46 @@ func c15TemporalProto(r *core.Rec, kind, text, class string) {
 		}
 		if got != jstr {
 			r.Fail("fhirconv.ToString|"+c.name+"|"+class+"|differs-from-jsonformat", core.W{"text": text, "fhirconv": got, "jsonformat": jstr})
+		}
+		// the helpers are pure functions of the element: the same rendering and parse result whatever
+		// the process's local zone is (time.Local is the only ambient input they could read)
+		saved := time.Local
+		for _, z := range []struct {
+			name string
+			loc  *time.Location
+		}{{"+09:00", time.FixedZone("", 9*3600)}, {"-03:30", time.FixedZone("", -(3*3600 + 1800))}} {
+			time.Local = z.loc
+			var got2 string
+			var parsed2 proto.Message
+			var perr2 error
+			pi2 := core.Try(func() {
+				switch m := c.msg.(type) {
+				case *dtpb.Date:
+					got2 = fhirconv.DateToString(m)
+					parsed2, perr2 = fhir.ParseDate(jstr)
+				case *dtpb.DateTime:
+					got2 = fhirconv.DateTimeToString(m)
+					parsed2, perr2 = fhir.ParseDateTime(jstr)
+				case *dtpb.Instant:
+					got2 = fhirconv.InstantToString(m)
+					parsed2, perr2 = fhir.ParseInstant(jstr)
+				case *dtpb.Time:
+					got2 = fhirconv.TimeToString(m)
+					parsed2, perr2 = fhir.ParseTime(jstr)
+				}
+			})
+			time.Local = saved
+			r.Eval()
+			if pi2 != nil {
+				r.Fail("fhir-helpers|"+c.name+"|"+class+"|local-zone="+z.name+"|"+pi2.Key(), core.W{"text": text})
+				continue
+			}
+			if got2 != got {
+				r.Fail("fhirconv.ToString|"+c.name+"|"+class+"|depends-on-the-local-zone", core.W{"text": text, "local_zone": z.name, "rendering": got2, "under_UTC": got})
+			}
+			if (perr2 == nil) != (perr == nil) || perr2 == nil && perr == nil && !proto.Equal(parsed2, parsed) {
+				r.Fail("fhir.Parse|"+c.name+"|"+class+"|depends-on-the-local-zone", core.W{"text": jstr, "local_zone": z.name, "parsed": fmt.Sprint(parsed2), "under_UTC": fmt.Sprint(parsed)})
+			}
 		}
 		if perr != nil {
 			r.Fail("fhir.Parse|"+c.name+"|"+class+"|rejects-jsonformat-output", core.W{"text": jstr, "err": perr.Error()})
